@@ -36,3 +36,15 @@ Theorem C15_json_cmdline_refuted :
   /\ json_string_ok (quoted (cmdline_info [112; 0; 233; 0])) = false.
 Proof. exact json_cmdline_refuted. Qed.
 Print Assumptions C15_json_cmdline_refuted.
+
+(* The call graph (utils/graph.c driven by the replay loop of cmds/graph.c / cmds/dump.c, including the
+   loop that closes the calls still open at the end of the data) aggregates the trace: for EVERY name
+   path q, the node found by walking q from the root carries
+     nr_calls = number of calls of the trace whose name path is q,
+     time     = sum of their durations (mod 2^64; an open call lasts until its task's last time stamp),
+   and there is no such node exactly when both are 0.  Any number of tasks, any interleaving, recursion. *)
+Theorem C15_graph_sums : forall rootname tids s q, wf_stream s = true -> NoDup tids ->
+  calls_at q (graph_build 0 rootname tids s) = count_path q (ref_entries [] s)
+  /\ time_at q (graph_build 0 rootname tids s) = time_path q (ref_calls tids s) mod W64.
+Proof. exact graph_sums. Qed.
+Print Assumptions C15_graph_sums.
